@@ -97,7 +97,19 @@ func (s *SourceSplitter) Start(ckpt *snapshotpb.SourceCheckpoint) error {
 	if err != nil {
 		return fmt.Errorf("kinesis.SourceSplitter failed to discover shards: %w", err)
 	}
-	pendingShards = append(pendingShards, s.splitTracker.AvailableSplits()...)
+
+	// The restored shards are tracked as unassigned, so AvailableSplits reports
+	// them too. Only add the shards that are not pending already: a shard must
+	// not be handed out twice.
+	restored := make(map[string]struct{}, len(pendingShards))
+	for _, shard := range pendingShards {
+		restored[shard.ShardID] = struct{}{}
+	}
+	for _, shard := range s.splitTracker.AvailableSplits() {
+		if _, ok := restored[shard.ShardID]; !ok {
+			pendingShards = append(pendingShards, shard)
+		}
+	}
 
 	// Do the initial split assignment
 	s.assignShards(ctx, pendingShards)
